@@ -93,6 +93,7 @@ ROLES = {
     "thin-archive-member": "thin-archive-member",
     "save-dir-path": "save-dir-path",
     "sysroot-script": "path-inside-sysroot-script",
+    "sysroot-relative-L": "sysroot-relative-L-option",
 }
 SHAPES = ["relative", "absolute", "dotdot", "symlink-dir"]
 
@@ -238,6 +239,13 @@ def build_case(ctx, objs, sand, role, cls, shape, r):
     elif role == "save-dir-path":
         put(objs["b"], "b.o")
         args.append("b.o")
+    elif role == "sysroot-relative-L":
+        # -L=dir / -L$SYSROOT/dir: the directory is looked up inside the sysroot
+        sr = h + "-sysroot"
+        os.makedirs(os.path.join(work, sr, "usr", "lib"))
+        tools.make_archive(os.path.join(work, sr, "usr", "lib", "libfoo2.a"), [objs["b"]])
+        sp = shape_path(work, sr, shape)
+        args += ["--sysroot=" + sp] + r.choice([["-L=/usr/lib"], ["-L", "=/usr/lib"], ["-L$SYSROOT/usr/lib"]]) + ["-lfoo2"]
     elif role == "sysroot-script":
         # the cross-toolchain layout: a linker script inside the sysroot names libraries by absolute
         # paths, which the linker resolves inside the sysroot
